@@ -36,3 +36,13 @@ def same_float(x, bits, width):
 
 def exc_name(e):
     return type(e).__name__
+
+
+def mkstr(cps):
+    """string from a list of (possibly symbolic) code points without forking"""
+    if chplugin.SYMBOLIC:
+        from crosshair.tracers import NoTracing
+        from crosshair.libimpl.builtinslib import LazyIntSymbolicStr
+        with NoTracing():
+            return LazyIntSymbolicStr(list(cps))
+    return "".join(chr(c) for c in cps)
